@@ -1,7 +1,7 @@
 (* C06 property theorems: statements + `exact lemma` only.
    External behaviour (net.ParseIP, net.ResolveIPAddr, IP.String, regexp matching) is universally
    quantified; what is assumed about Go's net package appears as explicit hypotheses. *)
-From CJ Require Import Common.Base C06.Model C06.Proofs.
+From CJ Require Import Common.Base C06.Model C06.Proofs C07.Model C06.Dialed.
 
 (* An accepted covert string is the literal text of the single address the resolver returned for
    its host; that address is a real IP, not blocked by policy (inside the allowlist when one is
@@ -59,7 +59,7 @@ Theorem C06_allowlist_precedence :
   forall pol a,
     (p_allow_on pol = true -> blocked pol a = negb (in_nets (p_allow pol) a)) /\
     (p_allow_on pol = false -> blocked pol a = in_nets (p_block pol) a).
-Proof. intros pol a. split; [exact (allowlist_on pol a) | exact (allowlist_off pol a)]. Qed.
+Proof. exact allowlist_precedence. Qed.
 Print Assumptions C06_allowlist_precedence.
 
 (* The v4-in-v6 form of an address is treated exactly like the address itself. *)
@@ -81,13 +81,7 @@ Theorem C06_resolved_once :
     (forall resolve2, (forall h p, split_host_port s = Some (h, p) -> resolve h = resolve2 h) ->
                parse_or_resolve_tr parse_ip resolve ip_str re_match pol s =
                parse_or_resolve_tr parse_ip resolve2 ip_str re_match pol s).
-Proof.
-  intros. repeat split.
-  - apply resolved_once_count.
-  - apply resolved_once_host.
-  - apply resolved_once_accepted.
-  - intros. now apply resolver_used_only_at_host.
-Qed.
+Proof. exact resolved_once. Qed.
 Print Assumptions C06_resolved_once.
 
 (* JoinHostPort / SplitHostPort are inverse on bracket-free hosts and digit ports. *)
@@ -128,7 +122,24 @@ Theorem C06_dial_target_is_checked :
         valid_ip a = true /\ blocked pol a = false /\
         dial_target resolve_later out = Some (a', z, port) /\
         norm a' = norm a /\ blocked pol a' = false.
-Proof.
-  intros ip_str G2 parse_ip re_match. exact (dial_target_is_checked parse_ip ip_str re_match G2).
-Qed.
+Proof. exact dial_target_is_checked_q. Qed.
 Print Assumptions C06_dial_target_is_checked.
+
+(* With C07's ingest model: for every registration that becomes valid, the registration object that
+   lookups return (whose Covert field Proxy hands to net.Dial verbatim) carries the literal computed
+   for that same registration at admission, and dialling it reaches the checked address. *)
+Theorem C06_checked_is_dialed :
+  forall (parse_ip : bytes -> option ipraw) (ip_str : ipraw -> bytes) (re_match : N -> bytes -> bool),
+    (forall a, valid_ip a = true -> no_brackets (ip_str a) = true) ->
+    forall resolve resolve_later pol live cfg st r r',
+      zone_law resolve -> literal_law ip_str resolve_later ->
+      In (Announce r') (snd (ingest (covert_fn parse_ip ip_str re_match resolve pol) live cfg st r)) ->
+      In r' (visible_all (fst (ingest (covert_fn parse_ip ip_str re_match resolve pol) live cfg st r))) /\
+      exists lk host port a z a',
+        parse_or_resolve parse_ip resolve ip_str re_match pol (r_covert r) = (Some (r_covert r'), lk) /\
+        split_host_port (r_covert r) = Some (host, port) /\ resolve host = Some (a, z) /\
+        valid_ip a = true /\ blocked pol a = false /\
+        dial_target resolve_later (r_covert r') = Some (a', z, port) /\
+        norm a' = norm a /\ blocked pol a' = false.
+Proof. exact checked_is_dialed. Qed.
+Print Assumptions C06_checked_is_dialed.
